@@ -639,7 +639,8 @@ class Ev:
         if isinstance(v, ArrV) and name == "ndim":
             return sp.Integer(v.batch + len(v.shape))
         if isinstance(v, ArrV) and name == "shape":
-            return Tup([sp.Symbol(f"dim{i}", positive=True, integer=True) for i in range(v.batch)] + [sp.Integer(x) for x in v.shape])
+            dims = [sp.Symbol(f"dim{i}", positive=True, integer=True) for i in range(v.batch)]
+            return Tup([sp.Integer(x) for x in v.shape] + dims if v.batch_last else dims + [sp.Integer(x) for x in v.shape])
         if isinstance(v, ArrV) and name == "T" and len(v.shape) == 2 and v.batch == 0:
             return ArrV(0, v.shape[::-1], v.fill, {(j, i): x for (i, j), x in v.cells.items()})
         if isinstance(v, ArrV) and name == "shape" and False:
@@ -4697,6 +4698,30 @@ def lib_atleast_2d(ev, a, k, n, mod):
 
 
 lib_atleast_2d.kw = set()
+
+
+def lib_broadcast_to(ev, a, k, n, mod):
+    x, shape = a[0], a[1] if len(a) > 1 else k.get("shape")
+    dims = list(shape.items) if isinstance(shape, Tup) else [shape]
+    const = [d for d in dims if is_sym(d) and d.is_Integer]
+    grid = [d for d in dims if not (is_sym(d) and d.is_Integer)]
+    if isinstance(x, ArrV):
+        if [sp.Integer(d) for d in x.shape] == const and len(grid) == x.batch:
+            return x
+        raise ev.err("numpy.broadcast_to of a small array to another shape", n, mod)
+    x = as_sym(x)
+    if not grid:
+        return ArrV(0, tuple(int(d) for d in const), x)
+    if dims[:len(const)] == const:
+        # a grid vector repeated along new leading constant axes
+        return ArrV(len(grid), tuple(int(d) for d in const), x, batch_last=True)
+    if dims[len(grid):] == const:
+        return ArrV(len(grid), tuple(int(d) for d in const), x)
+    raise ev.err("numpy.broadcast_to with interleaved grid and constant axes", n, mod)
+
+
+lib_broadcast_to.kw = {"shape"}
+LIB.setdefault("numpy.broadcast_to", lib_broadcast_to)
 LIB.setdefault("numpy.atleast_2d", lib_atleast_2d)
 LIB.setdefault("numpy.diag", lib_diag)
 LIB.setdefault("numpy.einsum", lib_einsum)
